@@ -612,6 +612,14 @@ fn parse_role(t: &Term) -> Option<crate::fsm::Role> {
 
 /// `(wire (cfg rid asn hold expected) (evs (A|P <action>)*))`; `with_timers` adds the timer probes (C08).
 pub(crate) async fn run_wire(t: &Term, with_timers: bool) -> String {
+    // A wire case takes well under a second; a case that does not come back is reported, not waited for.
+    match tokio::time::timeout(Duration::from_secs(30), run_wire_inner(t, with_timers)).await {
+        Ok(s) => s,
+        Err(_) => "(rig-timeout)".into(),
+    }
+}
+
+async fn run_wire_inner(t: &Term, with_timers: bool) -> String {
     let Some([cfg, evs]) = t.tagged("wire") else {
         return "(bad-case)".into();
     };
